@@ -4,7 +4,7 @@ func init() {
 	register(&Spec{
 		ID:       "C08",
 		Pkgs:     []string{"rules"},
-		InitPkgs: []string{"rules"},
+		InitPkgs: []string{"filterutil", "rules"},
 		Jobs: func(tier string) []Job {
 			maxK := 3
 			maxList := 1
